@@ -97,7 +97,6 @@ def json_schema(
                     )
                 )
             ).lstrip("\n")
-            or None
         ),
         "type": "object",
         "properties": properties,
